@@ -6,7 +6,7 @@ import itertools
 
 from hypothesis import strategies as st
 
-from .. import exprcheck, hyp, solver_machine as sm
+from .. import exprcheck, hyp, solver_machine as sm, str_machine as strm
 
 ID = "C11"
 LEVEL = "exploration"
@@ -16,6 +16,12 @@ RULE = (
     "SolverCacheless, solver reuse off and on, over 4 four-bit variables and one Boolean; plus every sequence of length <=3 "
     "(quick) / <=4 (thorough) over a fixed 10-operation alphabet (bounded-exhaustive). Oracle: brute-force model set over all 2^17 "
     "assignments (numpy), maintained from the constraints the harness added; every answer is checked against it after every step. "
+    "String solving: histories (<=14 steps) on SolverStrings, Solver and SolverCacheless over one or two string variables, each first "
+    "confined to a generated finite domain of 2-9 literals (NUL, backslash, escape-looking text, regex metacharacters, non-ASCII and "
+    "astral code points included), with constraints and query expressions over concat / substr / replace / length / index-of / to-int / "
+    "from-int / contains / prefix / suffix / equality, extras, branch, simplify, downsize; oracle: the explicit list of domain "
+    "assignments filtered by the constraints with the Python SMT-LIB string semantics; a query on which Z3's sequence solver gives up "
+    "(claripy solver error, or an overrun interrupted by the harness watchdog) is counted, not judged, and the history continues. "
     "Non-trivial: >=2 queries on the same expression separated by an add or differing in signed/extra, or a query after an "
     "unsat-making add, or a query with extra constraints; distinct by SHA-1 of (frontend, reuse, history)."
 )
@@ -27,6 +33,8 @@ ASSUMPTIONS = [
 BUDGET_S = {"quick": 240, "thorough": 3000}
 N = {"quick": 250, "thorough": 5000}
 FRONTENDS = ("Solver", "SolverCacheless")
+STR_FRONTENDS = ("SolverStrings", "Solver", "SolverCacheless")
+N_STR = {"quick": 22, "thorough": 500}
 
 
 def shards(tier, seed):
@@ -35,6 +43,9 @@ def shards(tier, seed):
         for reuse in (False, True):
             for i in range(3 if tier == "quick" else 4):
                 out.append({"kind": "random", "frontend": fe, "reuse": reuse, "i": i, "n": N[tier], "hseed": seed * 1000 + 600 + len(out)})
+    for fe in STR_FRONTENDS:
+        for i in range(4 if tier == "quick" else 8):
+            out.append({"kind": "str", "frontend": fe, "reuse": False, "i": i, "n": N_STR[tier], "hseed": seed * 1000 + 660 + len(out)})
     L = 3 if tier == "quick" else 4
     for fe in FRONTENDS:
         for first in range(len(ALPHABET)):
@@ -75,6 +86,12 @@ def classify(res):
 
 
 def replay(case):
+    if "domains" in case:
+        res = strm.run_case(case["frontend"], case)
+        out = {}
+        for fp, obs in res.fails:
+            out.setdefault(fp, obs)
+        return list(out.items())
     res = run_history(case["frontend"], case.get("reuse", False), case["history"])
     out = {}
     for fp, obs in res.fails:
@@ -96,8 +113,34 @@ def record(ctx, case, res, sample_extra=None):
             ctx.fail(fp, case, obs)
 
 
+def record_str(ctx, case, res):
+    st_ = res.stats
+    nontrivial = st_["answers_checked"] >= 2 and st_["adds"] >= 2
+    classes = [f"frontend:{case['frontend']}", "strings"] + [f"has:{k}" for k in ("repeat_queries", "unsat_reached", "extras", "branches", "maint", "solver_gave_up", "exhausting_evals") if st_.get(k)]
+    ctx.case(case, nontrivial, classes, sample={"frontend": case["frontend"], "domains": case["domains"], "history": [
+        {**s_, **({"e": strm.pretty(strm.T(s_["e"]))} if "e" in s_ else {}), **({"cs": [strm.pretty(strm.T(c)) for c in s_["cs"]]} if "cs" in s_ else {}),
+         **({"es": [strm.pretty(strm.T(c)) for c in s_["es"]]} if "es" in s_ else {}), **({"extra": [strm.pretty(strm.T(c)) for c in s_["extra"]]} if s_.get("extra") else {})}
+        for s_ in case["history"][:8]]})
+    ctx.count("steps", res.steps_run)
+    for k, v in st_.items():
+        ctx.count("strstat:" + k, v)
+    seen = set()
+    for fp, obs in res.fails:
+        if fp not in seen:
+            seen.add(fp)
+            ctx.fail(fp, case, obs)
+
+
 def run_shard(shard, ctx):
     fe, reuse = shard["frontend"], shard["reuse"]
+    if shard["kind"] == "str":
+        def sbody(c):
+            exprcheck.reset_caches()
+            case = {"frontend": fe, **c}
+            record_str(ctx, case, strm.run_case(fe, case))
+
+        hyp.run(strm.cases(), shard["n"], shard["hseed"], sbody, ctx)
+        return
     if shard["kind"] == "enum":
         n = 0
         first = ALPHABET[shard["first"]]
@@ -128,6 +171,10 @@ def run_shard(shard, ctx):
 
 
 def shrink(case, obs, fp, matcher, deadline):
+    if "domains" in case:
+        known = (lambda c, f, o: matcher.match(f, c, o) is not None) if matcher is not None else None
+        c2, o2 = strm.shrink_case(case["frontend"], case, fp, deadline, is_known=known)
+        return c2, (o2 if o2 is not None else obs)
     h, o = sm.shrink_history(case["frontend"], case["history"], fp, deadline, reuse=case.get("reuse", False))
     return {**case, "history": h}, (o if o is not None else obs)
 
